@@ -4,7 +4,8 @@
     net.ParseIP / net.ParseCIDR / net.SplitHostPort and the scheme table are universally
     quantified functions: every theorem holds whatever they answer. *)
 From Coq Require Import String List NArith Bool.
-From Fabio Require Import Lib.Outcome Lib.Bytes Model.Access Proofs.Access Model.BasicReload Proofs.BasicReload.
+From Fabio Require Import Lib.Outcome Lib.Bytes Model.Access Proofs.Access Model.BasicReload Proofs.BasicReload
+     Model.BasicSchemes Proofs.BasicSchemes.
 Import ListNotations.
 Local Open Scope N_scope.
 
@@ -605,3 +606,101 @@ Theorem C12_reload_nonvacuous :
   file_accepts ex_file1 ex_alice /\ ~ file_accepts ex_file2 ex_alice /\ file_accepts ex_file2 ex_bob.
 Proof. exact reload_nonvacuous. Qed.
 Print Assumptions C12_reload_nonvacuous.
+
+(* ================= a SET of basic schemes in one process =================
+   auth.LoadAuthSchemes + Target.Authorized + auth/basic.go for any number of configured schemes
+   (Model/BasicSchemes.v): every scheme is the machine above with a realm and a file of its own; a
+   schedule mixes, over all schemes, the operator's actions on each file, the steps of each refresh
+   goroutine and requests on routes with auth=<any name>.  For EVERY configuration - whatever the
+   realms, equal or not - and EVERY schedule: *)
+
+(* ISOLATION: the events of scheme n are exactly those of the single machine run on n's own
+   actions (its own file operations, its own goroutine, the requests on ITS routes), and so is its
+   state; nothing another scheme has or did, and no request on another scheme's route, enters *)
+Theorem C12_schemes_isolated : forall cfg sched n k,
+  n <> [] -> sget cfg n = Some k ->
+  events_of n (fst (srun (sboot cfg) sched))
+  = fst (rrun (rboot (bc_file k) (bc_mtime k)) (actions_of n sched)) /\
+  sget (snd (srun (sboot cfg) sched)) n
+  = Some {| sc_realm := bc_realm k;
+            sc_st := snd (rrun (rboot (bc_file k) (bc_mtime k)) (actions_of n sched)) |}.
+Proof. exact schemes_isolated. Qed.
+Print Assumptions C12_schemes_isolated.
+
+(* a request on a route with auth=n is accepted iff the file scheme n has most recently read
+   completely has a line for the user with that password (and no later line for that user) *)
+Theorem C12_schemes_verdicts_follow_own_file : forall cfg sched pre n c b post k,
+  n <> [] -> sget cfg n = Some k ->
+  fst (srun (sboot cfg) sched) = pre ++ SEv n (EvVerdict c b) :: post ->
+  (b = true <-> file_accepts (last_loaded (bc_file k) (events_of n pre)) c).
+Proof. exact schemes_verdicts_follow_own_file. Qed.
+Print Assumptions C12_schemes_verdicts_follow_own_file.
+
+(* a route that names a scheme which is not configured rejects every request *)
+Theorem C12_schemes_unknown_scheme_rejects : forall cfg sched n c b,
+  n <> [] -> sget cfg n = None ->
+  In (SEv n (EvVerdict c b)) (fst (srun (sboot cfg) sched)) -> b = false.
+Proof. exact schemes_unknown_scheme_rejects. Qed.
+Print Assumptions C12_schemes_unknown_scheme_rejects.
+
+Theorem C12_schemes_authorized_iff : forall cfg sched n c,
+  n <> [] ->
+  (authorized n (set_table (snd (srun (sboot cfg) sched))) c = true <->
+   exists k, sget cfg n = Some k /\
+             file_accepts (last_loaded (bc_file k) (events_of n (fst (srun (sboot cfg) sched)))) c).
+Proof. exact schemes_authorized_iff. Qed.
+Print Assumptions C12_schemes_authorized_iff.
+
+(* composed with the gate: forwarded (or redirected) through a route with auth=n only if n is
+   configured and n's own most recently loaded file accepts the credentials ... *)
+Theorem C12_schemes_forwarded_only_if_own_file_accepts :
+  forall parse_ip split_host cfg sched tg remote xff c,
+  t_auth tg <> [] ->
+  (In EUpstream (serve_http parse_ip split_host bcreds (Some tg)
+                   (set_table (snd (srun (sboot cfg) sched))) remote xff c)
+   \/ exists code, In (ERedirect code) (serve_http parse_ip split_host bcreds (Some tg)
+                   (set_table (snd (srun (sboot cfg) sched))) remote xff c)) ->
+  exists k, sget cfg (t_auth tg) = Some k /\
+            file_accepts (last_loaded (bc_file k) (events_of (t_auth tg) (fst (srun (sboot cfg) sched)))) c.
+Proof. exact schemes_forwarded_only_if_own_file_accepts. Qed.
+Print Assumptions C12_schemes_forwarded_only_if_own_file_accepts.
+
+(* ... otherwise 401: also for credentials another scheme of the set accepts and has accepted
+   earlier in the schedule, whatever realm the two announce *)
+Theorem C12_schemes_rejected_gets_401 :
+  forall parse_ip split_host cfg sched tg remote xff c,
+  t_auth tg <> [] ->
+  access_denied_http parse_ip split_host (t_rules tg) remote xff = false ->
+  (forall k, sget cfg (t_auth tg) = Some k ->
+             ~ file_accepts (last_loaded (bc_file k) (events_of (t_auth tg) (fst (srun (sboot cfg) sched)))) c) ->
+  serve_http parse_ip split_host bcreds (Some tg)
+             (set_table (snd (srun (sboot cfg) sched))) remote xff c = [ERespond 401].
+Proof. exact schemes_rejected_gets_401. Qed.
+Print Assumptions C12_schemes_rejected_gets_401.
+
+(* the realm only ever shows in the challenge, and there it is the realm of the route's own scheme *)
+Theorem C12_schemes_challenge_is_own_realm : forall cfg sched auth c r,
+  route_challenge auth (snd (srun (sboot cfg) sched)) c = Some r ->
+  exists k, sget cfg auth = Some k /\ r = bc_realm k /\ c_ok c = false.
+Proof. exact schemes_challenge_is_own_realm. Qed.
+Print Assumptions C12_schemes_challenge_is_own_realm.
+
+(* non-vacuity: schemes staff and vault, different files, the SAME realm; alice is a staff user
+   only: rejected on the vault route before AND after her login on the staff route *)
+Theorem C12_schemes_nonvacuous :
+  fst (srun (sboot ex_two_schemes) ex_cross_sched) =
+    [SEv (bs "vault") (EvVerdict ex_alice false); SEv (bs "staff") (EvVerdict ex_alice true);
+     SEv (bs "vault") (EvVerdict ex_root true); SEv (bs "vault") (EvVerdict ex_alice false);
+     SEv (bs "staff") (EvVerdict ex_alice_vault_pw false); SEv (bs "nosuch") (EvVerdict ex_alice false)] /\
+  file_accepts ex_file1 ex_alice /\ ~ file_accepts ex_vault_file ex_alice /\
+  route_challenge (bs "vault") (snd (srun (sboot ex_two_schemes) ex_cross_sched)) ex_nocreds = Some (bs "Restricted") /\
+  serve_http (fun _ => None) (fun _ => Some (bs "192.0.2.7")) bcreds
+             (Some {| t_rules := no_rules; t_auth := bs "vault"; t_redirect := 0 |})
+             (set_table (snd (srun (sboot ex_two_schemes) ex_cross_sched))) (bs "192.0.2.7:4711") [] ex_alice
+  = [ERespond 401] /\
+  serve_http (fun _ => None) (fun _ => Some (bs "192.0.2.7")) bcreds
+             (Some {| t_rules := no_rules; t_auth := bs "staff"; t_redirect := 0 |})
+             (set_table (snd (srun (sboot ex_two_schemes) ex_cross_sched))) (bs "192.0.2.7:4711") [] ex_alice
+  = [EUpstream].
+Proof. exact schemes_nonvacuous. Qed.
+Print Assumptions C12_schemes_nonvacuous.
